@@ -824,6 +824,9 @@ class ZonalStatistics(AccessorBase):
         if "nodata" not in zones.attrs:
             raise ValueError("Zones xarray DataArray needs nodata attribute")
 
+        # the kernel expects the dimensions of the zone raster last
+        xx = xx.transpose(..., *zones.dims)
+
         # set null values to nodata value
         xx = xx.where(xx.notnull(), xx.nodata)
         attrs = xx.attrs
